@@ -849,6 +849,18 @@ MUTANTS = [
            lambda f, t: replace_stmt(f, lambda s: isinstance(s, ast.Expr) and ".pop(streamId, None)" in u(s), stmts("del self.streaming_responses[streamId]"))),
     Mutant("C20", "presented-key-encoded-before-its-type-is-known", "C20-R1", GW, "process_pyro_request",
            lambda f, t: replace_expr(f, lambda e: isinstance(e, ast.BoolOp) and "isinstance(gateway_key, str)" in u(e), "gateway_key.encode('utf-8') != pyro_app.gateway_key")),
+    Mutant("C01", "json-dates-lose-their-branch", "C01-R8", SER, "JsonSerializer.default",
+           lambda f, t: delete_stmt(f, lambda s: isinstance(s, ast.If) and "datetime.date" in u(s.test))),
+    Mutant("C01", "msgpack-complex-loses-its-branch", "C01-R8", SER, "MsgpackSerializer.default",
+           lambda f, t: set_test(f, lambda e: u(e) == "isinstance(obj, complex)", "False")),
+    Mutant("C01", "marshal-containers-all-rebuilt-as-frozenset", "C01-R8", SER, "MarshalSerializer.convert_obj_into_marshallable",
+           lambda f, t: replace_expr(f, lambda e: isinstance(e, ast.Call) and u(e) == "isinstance(obj, frozenset)", "True"), also=("C11",)),
+    Mutant("C06", "memoryview-recast-switched-off", "C06-R3", P, "SendingMessage.__init__",
+           lambda f, t: replace_expr(f, lambda e: isinstance(e, ast.BoolOp) and "memoryview" in u(e) and "itemsize" in u(e), "False")),
+    Mutant("C06", "memoryview-recast-only-for-two-byte-items", "C06-R3", P, "SendingMessage.__init__",
+           lambda f, t: replace_expr(f, lambda e: isinstance(e, ast.Compare) and u(e) == "v.itemsize != 1", "v.itemsize == 2")),
+    Mutant("C06", "correlation-id-never-sent", "C06-R2", P, "SendingMessage.__init__",
+           lambda f, t: set_test(f, lambda e: u(e) == "current_context.correlation_id", "False"), also=("C12",)),
     Mutant("C18", "communication-timeout-set-by-the-worker", "C18-R3", ST, "SocketServer_Threadpool.events",
            lambda f, t: (delete_stmt(f, lambda s: isinstance(s, ast.If) and "COMMTIMEOUT" in u(s.test)),
                          find_fn(t, "ClientConnectionJob.__call__").body.insert(0, stmts("if config.COMMTIMEOUT:\n    self.csock.timeout = config.COMMTIMEOUT")[0])), also=("C05",)),
